@@ -32,7 +32,7 @@ for pid in ids:
     })
 man = {
     "version": 1,
-    "setup_cmd": "cd /verif && /venv/bin/python tools/extract.py && cd lean && lake build",
+    "setup_cmd": "cd /verif && tools/setup.sh",
     "hooks": {
         "guard": "WERKZEUG_VERIF",
         "enable": "no source hooks: checks observe werkzeug through its public API, instrumented stream objects and spy callbacks supplied by the harness",
